@@ -348,51 +348,57 @@ endpoint_path!(c20_endpoint_confined_len3, 3, 6, true, "/c/api/ribbit", "accepte
 endpoint_path!(c20_endpoint_confined_len5, 5, 8, true, "/c/api/ribbit", "accepted endpoint leaves cache_dir/api/ribbit");
 // @end
 
-const ENDPOINTS: [&str; 14] = [
-    "..", "../../..", "a/../..", "a/..", "/a", "./a", "a/./b", ".", "a b", "..a", "a..b", "a/", "a//b", "v1/summary",
-];
-
-// @harness prop=C20 tier=quick timeout=900 role=endpoint-traversal-regressions
-// @bounds 14 concrete endpoints incl. the former escapes "..", "../../..", "a/../.." and "/a", "./a", "a/./b", ".", "a b" (must be rejected) and "..a", "a..b", "a/", "a//b", "v1/summary" (must be accepted; all < 16 bytes: longer strings take memchr's aligned path, whose split point depends on the symbolic pointer address and stay inside /c/api/ribbit under a plain join)
-// @encodes cascette_protocol::client::validate_endpoint
-// @assumes as c20_endpoint_confined_len1; concrete list (8 symbolic bytes are not tractable, see c20_endpoint_confined_len5)
-// @catches '..' / '.' segments or absolute endpoints passing validation again (former defects), over-rejection of dots inside names
-#[kani::proof]
-#[kani::unwind(16)]
-#[kani::stub(std::fmt::format, crate::stubs::fmt_format_empty)]
-fn c20_kf_endpoint_escapes_list() {
-    let mut n = 0;
-    while n < ENDPOINTS.len() {
-        let e: &str = ENDPOINTS[n];
-        let b = e.as_bytes();
-        let verdict = cascette_protocol::client::verif_access::validate_endpoint(e);
-        let accepted = verdict.is_ok();
-        std::mem::forget(verdict);
-        let mut ok = b.len() > 0 && b[0] != b'/';
-        let mut start = 0;
-        let mut i = 0;
-        while i <= b.len() {
-            if i == b.len() || b[i] == b'/' {
-                let w = i - start;
-                if (w == 1 && b[start] == b'.') || (w == 2 && b[start] == b'.' && b[start + 1] == b'.') {
-                    ok = false;
-                }
-                start = i + 1;
-            } else {
-                let c = b[i];
-                ok &= c.is_ascii_alphanumeric() || c == b'_' || c == b'-' || c == b'.';
+fn endpoint_oracle(b: &[u8]) -> bool {
+    let mut ok = b.len() > 0 && b[0] != b'/';
+    let mut start = 0;
+    let mut i = 0;
+    while i <= b.len() {
+        if i == b.len() || b[i] == b'/' {
+            let w = i - start;
+            if (w == 1 && b[start] == b'.') || (w == 2 && b[start] == b'.' && b[start + 1] == b'.') {
+                ok = false;
             }
-            i += 1;
+            start = i + 1;
+        } else {
+            let c = b[i];
+            ok &= c.is_ascii_alphanumeric() || c == b'_' || c == b'-' || c == b'.';
         }
-        assert!(accepted == ok, "validate_endpoint must accept exactly: whitelist characters, no leading '/', no '.' / '..' segment");
-        if accepted {
-            let mut v: Vec<u8> = Vec::with_capacity(14 + b.len());
-            v.extend_from_slice(b"/c/api/ribbit/");
-            v.extend_from_slice(b);
-            assert!(confined_under(&v, b"/c/api/ribbit"), "accepted endpoint would leave api/ribbit under a plain join");
-            std::mem::forget(v);
-        }
-        n += 1;
+        i += 1;
     }
-    kani::cover!(n == ENDPOINTS.len(), "all endpoints processed");
+    ok
 }
+
+macro_rules! endpoint_concrete {
+    ($name:ident, $e:expr) => {
+        #[kani::proof]
+        #[kani::unwind(12)]
+        #[kani::stub(std::fmt::format, crate::stubs::fmt_format_empty)]
+        fn $name() {
+            const E: &str = $e;
+            let b = E.as_bytes();
+            let verdict = cascette_protocol::client::verif_access::validate_endpoint(E);
+            let accepted = verdict.is_ok();
+            std::mem::forget(verdict);
+            assert!(accepted == endpoint_oracle(b), "validate_endpoint must accept exactly: whitelist characters, no leading '/', no '.' / '..' segment");
+            if accepted {
+                let mut v: Vec<u8> = Vec::with_capacity(14 + b.len());
+                v.extend_from_slice(b"/c/api/ribbit/");
+                v.extend_from_slice(b);
+                assert!(confined_under(&v, b"/c/api/ribbit"), "accepted endpoint would leave api/ribbit under a plain join");
+                std::mem::forget(v);
+            }
+        }
+    };
+}
+
+// @family prop=C20 tier=quick timeout=900 role=endpoint-traversal-regressions
+// @bounds one concrete endpoint per harness: the former escapes "../../..", "a/../.." and "/a", "./a" (must be rejected); "..a" (must be accepted and stay inside /c/api/ribbit under a plain join)
+// @encodes cascette_protocol::client::validate_endpoint
+// @assumes as c20_endpoint_confined_len1; concrete endpoints (8 symbolic bytes are not tractable, see c20_endpoint_confined_len5)
+// @catches '..' / '.' segments or absolute endpoints passing validation again (former defects), over-rejection of dots inside names
+endpoint_concrete!(c20_kf_endpoint_escapes_len8, "../../..");
+endpoint_concrete!(c20_kf_endpoint_escapes_a_up_up, "a/../..");
+endpoint_concrete!(c20_kf_endpoint_absolute, "/a");
+endpoint_concrete!(c20_kf_endpoint_curdir, "./a");
+endpoint_concrete!(c20_endpoint_dots_in_name, "..a");
+// @end
